@@ -15,9 +15,12 @@ mod canon;
 mod wrap;
 mod common;
 mod gen_sql;
+mod kwhelpers;
 mod cursor;
+mod cursorstate;
 mod exprprint;
 mod o_text;
+mod query;
 mod reflect;
 mod tab;
 mod tokstream;
@@ -63,7 +66,9 @@ fn main() {
             std::fs::create_dir_all(dir).unwrap();
             let rep = match name {
                 "kw" => c08::corr(dir, seed, &tier),
+                "kwhelpers" => kwhelpers::corr(dir, seed, &tier),
                 "cursor" => cursor::corr(dir, seed, &tier),
+                "cursorstate" => cursorstate::corr(dir, seed, &tier),
                 "lists" => c13::corr(dir, seed, &tier),
                 "stmts" => c13::corr_stmts(dir, seed, &tier),
                 "prec" => c04::corr_prec(dir, seed, &tier),
@@ -77,6 +82,7 @@ fn main() {
                 "lits" => c06::corr(dir, seed, &tier),
                 "dtparse" => c18::corr_parse(dir, seed, &tier),
                 "dtprint" => c18::corr_print(dir, seed, &tier),
+                "queries" => query::corr(dir, seed, &tier),
                 _ => { eprintln!("no corr stream {name}"); std::process::exit(2) }
             };
             rep.emit();
